@@ -107,6 +107,7 @@ func runC16(c *Ctx) {
 	c.OpenShards("From Verif Require Import Base.Prelude Misc.Console Harness.C16H.",
 		"c16_case * c16_obs", "mismatches c16_run c16_eqb", 200)
 
+	interiorNL := 0
 	emit := func(cs *Case, class string) {
 		reps := 3
 		dec := decodeEvent(cs.Event)
@@ -114,6 +115,9 @@ func runC16(c *Ctx) {
 			reps = 5
 		}
 		ob := render(cs, reps)
+		if dec.ok && bytes.Count(ob.outs[0], []byte("\n")) > 1 {
+			interiorNL++
+		}
 		c16monitor(c, cs, ob)
 		tb := buildTables(dec, cs.Opts)
 		term := fmt.Sprintf("((%s, %s, %d%%N, %s), (%s, %d%%N, %s))", cs.Opts.coq(), dec.coq(), len(cs.Event), tb.coq(),
@@ -183,7 +187,9 @@ func runC16(c *Ctx) {
 		f(zerolog.New(&buf).Level(zerolog.Level(-128)))
 		return append([]byte(nil), buf.Bytes()...)
 	}
-	def := func(ev []byte) *Case { return &Case{Event: ev, Opts: Opts{TimeFieldFormat: "2006-01-02T15:04:05Z07:00", Loc: "UTC"}} }
+	def := func(ev []byte) *Case {
+		return &Case{Event: ev, Opts: Opts{TimeFieldFormat: "2006-01-02T15:04:05Z07:00", Loc: "UTC"}}
+	}
 
 	// ---- corpus: minimized inputs of fixed defects, re-tested first on every run
 	// F9 (2538a27): a field named "" together with an error field
@@ -231,8 +237,78 @@ func runC16(c *Ctx) {
 		}
 	}
 
+	// ---- directed: all 24 permutations of the default parts, all 16 PartsExclude subsets, one rich event
+	{
+		ev := logged(func(l zerolog.Logger) {
+			ll := l.With().Timestamp().Logger()
+			ll.Error().Str("caller", cwd+"/pkg/file.go:42").Str("k", "v w").Err(fmt.Errorf("boom")).Int("n", 7).Msg("the message")
+		})
+		std := []string{"time", "level", "caller", "message"}
+		var perm func(k int, xs []string)
+		perm = func(k int, xs []string) {
+			if k == len(xs) {
+				cs := def(ev)
+				cs.Opts.PartsOrderSet, cs.Opts.PartsOrder = true, append([]string{}, xs...)
+				emit(cs, "directed-parts")
+				return
+			}
+			for i := k; i < len(xs); i++ {
+				xs[k], xs[i] = xs[i], xs[k]
+				perm(k+1, xs)
+				xs[k], xs[i] = xs[i], xs[k]
+			}
+		}
+		perm(0, append([]string{}, std...))
+		for mask := 0; mask < 16; mask++ {
+			cs := def(ev)
+			for i, p := range std {
+				if mask&(1<<uint(i)) != 0 {
+					cs.Opts.PartsExclude = append(cs.Opts.PartsExclude, p)
+				}
+			}
+			emit(cs, "directed-parts")
+			cs2 := *cs
+			cs2.Opts.PartsOrderSet, cs2.Opts.PartsOrder = true, []string{"n", "message", "level", "nope", "time", "error", "caller", "level"}
+			emit(&cs2, "directed-parts")
+		}
+	}
+	// ---- directed: numeric and textual time values under every TimeFieldFormat (int64 wrap of the unit conversion)
+	{
+		nums := []string{"0", "-1", "1577934245", "1577934245123", "1577934245123456", "1577934245123456789", "9223372036854775807", "-9223372036854775808",
+			"9223372036854775808", "9223372036854775", "9223372036854776", "9223372036855", "-9223372036855", "1.5", "1e3", "-62135596800", "253402300800"}
+		for _, tff := range []string{"", "UNIXMS", "UNIXMICRO", "UNIXNANO", "2006-01-02T15:04:05Z07:00"} {
+			for i, n := range nums {
+				cs := def(logged(func(l zerolog.Logger) { l.Log().RawJSON("time", []byte(n)).Send() }))
+				cs.Opts.TimeFieldFormat = tff
+				cs.Opts.TimeFormat = []string{"", "2006-01-02T15:04:05.999999999Z07:00"}[i%2]
+				cs.Opts.Loc = locs[(i+len(tff))%len(locs)]
+				emit(cs, "directed-time")
+			}
+			for _, t := range []string{"2020-01-02T03:04:05Z", "2020-01-02T03:04:05.123456789+05:30", "", "1577934245", "garbage", "3:04PM"} {
+				cs := def(logged(func(l zerolog.Logger) { l.Log().Str("time", t).Send() }))
+				cs.Opts.TimeFieldFormat = tff
+				cs.Opts.TimeFormat = "2006-01-02T15:04:05.999999999Z07:00"
+				emit(cs, "directed-time")
+			}
+		}
+	}
+	// ---- directed: level values (ParseLevel: case folding, numbers, bounds; stripLevel: 3-byte cut, ToUpper)
+	for _, lv := range []string{`trace`, `debug`, `info`, `warn`, `error`, `fatal`, `panic`, `disabled`, ``, `INFO`, `Warn`, `di\u017fabled`, `\u212aanic`, `3`, `+1`, `-1`, `-0`, `007`, `5`, `6`, `7`, `127`, `128`, `-128`, `-129`, `99999999999999999999`, `1e1`, `0x1`, `1_0`, ` 1`, `trace `, `\u00e9`, `ab`, `abcd`, `xy\u00e9`, `x\u00e9z`, `\u0131nfo`, `\u01c6x`, `\ufb01x`, `12\u00e9`, `\ud83d\ude00`} {
+		var lvs string
+		if err := json.Unmarshal([]byte(`"`+lv+`"`), &lvs); err != nil {
+			panic(err)
+		}
+		emit(def(logged(func(l zerolog.Logger) { l.Log().Str("level", lvs).Int("k", 1).Msg("m") })), "directed-level")
+	}
+	for _, lv := range []string{"1", "-1", "3.0", "true", "false", "null", `{"a":1}`, `[1,2]`, `["info"]`, "12345", "1e2"} {
+		raw := []byte(lv)
+		emit(def(logged(func(l zerolog.Logger) {
+			l.Log().RawJSON("level", raw).RawJSON("message", raw).RawJSON("caller", raw).RawJSON("time", raw).RawJSON("k", raw).Send()
+		})), "directed-level")
+	}
+
 	// ---- random
-	nrand := 2400
+	nrand := 3000
 	if c.Thorough() {
 		nrand = 40000
 	}
@@ -266,6 +342,9 @@ func runC16(c *Ctx) {
 		if r.Chance(25) {
 			emit(&Case{Event: ev, Opts: genOpts(r, keys, tff)}, "random")
 		}
+	}
+	if interiorNL > 0 {
+		c.Note("reading: %d of the rendered lines contain a newline before the final one (message, keys and part values are written verbatim); only the final newline is asserted", interiorNL)
 	}
 	for k, v := range kinds {
 		c.Res.Histograms["field_method"] = mergeHist(c.Res.Histograms["field_method"], k, v)
